@@ -11,6 +11,7 @@ import PoetryVerif.Proofs.VRangeWalk
 import PoetryVerif.Proofs.VRangeSort
 import PoetryVerif.Proofs.VRangeSep
 import PoetryVerif.Proofs.VRangeInv
+import PoetryVerif.Proofs.VRangeSepV
 
 set_option linter.unusedSimpArgs false
 set_option linter.unusedVariables false
@@ -232,7 +233,18 @@ example : RngMember (.rng exA) ∧ RngMember (.rng exB) := by
   · intro e he; simp [VRange.bounds, exB] at he; subst he; decide
   · intro m M hm hM; simp [exB] at hM
 
-/-- the same with `Version` members allowed (not proved: `allows_any` of a `Version` is computed through
+/-- **`VersionUnion.of` with `Version` members**, under the explicit hypothesis that the bounds in play are
+mutually regular (any two equal or of different releases) and none is a local build (`RegB B`): total; the result
+is well-formed (members well-formed, inhabited, sorted, consecutive ones separated) over the same bounds; exact on
+regular probes; and `allows` of the result never raises and is the disjunction over its members for every version. -/
+theorem union_of_regular {B : List Version} (hB : RegB B) (l : List RC) (hm : ∀ c ∈ l, RegMember B c) :
+    ∃ res, unionOfFlat l = .ok res ∧ res.WF ∧ (∀ c ∈ res.flatten, RegMember B c) ∧
+      (∀ v, res.allows v = .ok (res.allowsPlain v)) ∧
+      ∀ p, p.wf = true → Regular (boundsOf l) p → res.allowsPlain p = anyAllows l p := by
+  obtain ⟨res, h1, h2, h3, h4⟩ := unionOfFlat_reg hB l hm
+  exact ⟨res, h1, h2, h3, fun v => VC.allows_of_reg hB res h2 h3 v, h4⟩
+
+/-- the same with `Version` members allowed and no hypothesis on the bounds (not proved: `allows_any` of a `Version` is computed through
 `intersect`, not through the bound comparisons) -/
 def union_of_full_statement : Prop :=
   ∀ l : List RC, (∀ c ∈ l, c.WF ∧ c.Tidy ∧ c.NE) → ∃ res, unionOfFlat l = .ok res ∧ res.WF ∧
